@@ -1294,7 +1294,13 @@ def _leading_walrus(e: ast.expr) -> ast.NamedExpr | None:
     if isinstance(e, ast.NamedExpr) and isinstance(e.target, ast.Name):
         return e
     if isinstance(e, ast.Compare):
-        return _leading_walrus(e.left)
+        w = _leading_walrus(e.left)
+        if w is None and len(e.comparators) == 1 and is_pure_expr(e.left):
+            # `a.b != (t := E)`: the left operand is a plain read; binding t first changes nothing unless the operand mentions t
+            w = _leading_walrus(e.comparators[0])
+            if w is not None and any(isinstance(x, ast.Name) and x.id == w.target.id for x in ast.walk(e.left)):
+                w = None
+        return w
     if isinstance(e, ast.UnaryOp):
         return _leading_walrus(e.operand)
     if isinstance(e, ast.BoolOp):
@@ -2097,6 +2103,16 @@ def _lower_match(node: ast.Match) -> list[ast.stmt] | None:
             return ast.Compare(left=copy.deepcopy(subj), ops=[ast.Is()], comparators=[ast.Constant(value=p.value)]), None
         if isinstance(p, ast.MatchClass) and not p.patterns and not p.kwd_patterns:
             return ast.Call(func=ast.Name(id="isinstance", ctx=ast.Load()), args=[copy.deepcopy(subj), p.cls], keywords=[]), None
+        if isinstance(p, ast.MatchClass) and not p.patterns and p.kwd_patterns and all(isinstance(k, (ast.MatchValue, ast.MatchSingleton)) for k in p.kwd_patterns):
+            # C(attr=<constant>, ...): isinstance(S, C) and S.attr == <constant> and ...  (attributes are looked up in the order written)
+            parts: list[ast.expr] = [ast.Call(func=ast.Name(id="isinstance", ctx=ast.Load()), args=[copy.deepcopy(subj), p.cls], keywords=[])]
+            for a_, k in zip(p.kwd_attrs, p.kwd_patterns):
+                left = ast.Attribute(value=copy.deepcopy(subj), attr=a_, ctx=ast.Load())
+                if isinstance(k, ast.MatchValue):
+                    parts.append(ast.Compare(left=left, ops=[ast.Eq()], comparators=[k.value]))
+                else:
+                    parts.append(ast.Compare(left=left, ops=[ast.Is()], comparators=[ast.Constant(value=k.value)]))
+            return ast.BoolOp(op=ast.And(), values=parts), None
         if isinstance(p, ast.MatchAs):
             if p.pattern is None:
                 return None, p.name
